@@ -199,5 +199,22 @@ class C11(Prop):
         boundary = [k for k in classes if k != 'generic']
         return OK(bool(boundary), classes + ['accepted'])
 
+    def fuzz_campaign(self, tier, seed):
+        """thorough tier: coverage-guided campaign through the same decision function; every failure is re-decided here"""
+        from .. import fuzzdrv
+        from ..runner import OK
+        if tier != 'thorough':
+            return []
+        info, fails = fuzzdrv.campaign(self.id, seed)
+        self.fuzz_info = info
+        out = []
+        for f in fails:
+            case = f['case']
+            out.append((case, self.decide(case)))
+        return out
+
+    def extra_checks(self, tier, seed):
+        return self.fuzz_campaign(tier, seed)
+
 
 PROP = C11()
